@@ -1,5 +1,48 @@
-(* C02 — conditioning returns the exact Gaussian conditional distribution (statements only). *)
+(* C02 — conditioning returns the exact Gaussian conditional distribution (statements only).
+   Textbook conditional: mean m* + K*^T S^-1 (y - m), covariance K** + N* - K*^T S^-1 K*, S = K + N.
+   Inverse-free statements: alpha2 is characterised by S alpha2 = y - m, X by S X = K*. Any field. *)
 From mathcomp Require Import all_ssreflect all_algebra.
 From TinyGP Require Import Base.Ops Base.LMat Model.QSMCore Model.QSMSolve Model.Noise Model.Dense Model.GP
-  Theory.MxRefine Theory.QSMDen Theory.QSMMatmul Theory.Gauss.
+  Theory.MxRefine Theory.QSMDen Theory.QSMMatmul Theory.QSMTriInv Theory.Gauss Theory.GPThy.
 Set Implicit Arguments. Unset Strict Implicit. Unset Printing Implicit Defensive.
+Import GRing.Theory.
+Local Open Scope ring_scope.
+
+(* pure algebra *)
+Theorem C02_cond_mean_fast (F : fieldType) n (Km Nm : 'M[F]_n) (a y m : 'cV[F]_n) :
+  (Km + Nm) *m a = y - m -> y - Nm *m a = Km *m a + m.
+Proof. exact: cond_mean_fast. Qed.
+Print Assumptions C02_cond_mean_fast.
+Theorem C02_cond_cov_factor (F : fieldType) n nt (L S : 'M[F]_n) (Ks A X : 'M[F]_(n, nt)) (C : 'M[F]_nt) :
+  L *m L^T = S -> L \in unitmx -> L *m A = Ks -> S *m X = Ks -> C - A^T *m A = C - Ks^T *m X.
+Proof. exact: cond_cov_factor. Qed.
+Print Assumptions C02_cond_cov_factor.
+
+(* the model's predictive mean on every path of GaussianProcess._condition, include_mean true and false:
+   fast path at the training inputs (y - N alpha [- m]), alternative predictive kernel at the training inputs,
+   and new inputs; Kcross = k(X*, X) *)
+Theorem C02_cond_mean_paths (F : fieldType) sq lt n nt (N : noise F) (Nm Km : 'M[F]_n) (a2 y mu mut : vec F) (Kcross : mat F) :
+  (forall v, mx_of n 1 (nmatmul (fops sq lt) 1 N (lcol (fops sq lt) n v)) = Nm *m cv_of n v) ->
+  (Km + Nm) *m cv_of n a2 = cv_of n (vsub (fops sq lt) n y mu) ->
+  [/\ cv_of n (gp_condition_mean (fops sq lt) n nt FastPath true a2 y mu N Kcross mut) = Km *m cv_of n a2 + cv_of n mu,
+      cv_of n (gp_condition_mean (fops sq lt) n nt FastPath false a2 y mu N Kcross mut) = Km *m cv_of n a2 &
+      cv_of n (gp_condition_mean (fops sq lt) n nt KernelPathSelf true a2 y mu N Kcross mut) = mx_of n n Kcross *m cv_of n a2 + cv_of n mu] /\
+  [/\ cv_of n (gp_condition_mean (fops sq lt) n nt KernelPathSelf false a2 y mu N Kcross mut) = mx_of n n Kcross *m cv_of n a2,
+      cv_of nt (gp_condition_mean (fops sq lt) n nt NewInputs true a2 y mu N Kcross mut) = mx_of nt n Kcross *m cv_of n a2 + cv_of nt mut &
+      cv_of nt (gp_condition_mean (fops sq lt) n nt NewInputs false a2 y mu N Kcross mut) = mx_of nt n Kcross *m cv_of n a2].
+Proof. exact: cond_mean_paths. Qed.
+Print Assumptions C02_cond_mean_paths.
+
+(* the dense fallback of QuasisepSolver.condition returns K** + N* - K*^T S^-1 K* (with the predictive noise) *)
+Theorem C02_cond_cov_quasisep_dense (F : fieldType) sq lt nt (d : vec F) (l : tri F) (Sm : 'M[F]_(tn l)) (Ks Kss : mat F)
+    (Nstar : noise F) (Nsm : 'M[F]_nt) (X : 'M[F]_(tn l, nt)) :
+  let s := MkQ (tn l) (Symm [::] l) d l in
+  (forall k, (k < tn l)%N -> nth 0 d k != 0) ->
+  den (tn l) (Lower d l) *m (den (tn l) (Lower d l))^T = Sm ->
+  den (tn l) (Lower d l) \in unitmx ->
+  mx_of nt nt (nadd (fops sq lt) Nstar Kss) = mx_of nt nt Kss + Nsm ->
+  Sm *m X = mx_of (tn l) nt Ks ->
+  mx_of nt nt (quasisep_condition_dense (fops sq lt) nt s Ks Kss Nstar)
+  = mx_of nt nt Kss + Nsm - (mx_of (tn l) nt Ks)^T *m X.
+Proof. exact: cond_cov_quasisep_dense. Qed.
+Print Assumptions C02_cond_cov_quasisep_dense.
